@@ -175,4 +175,158 @@ func c12Typed(x *runCtx) {
 			c12TypedInput(x, wt, b, "adversarial-shape", true)
 		}
 	}
+	c12TypedInflated(x)
+}
+
+// ---- structure-aware inflation: the shapes of the library's own types with one count or length replaced by a huge claim ----
+
+type cborHeadPos struct {
+	off, hlen int   // where the head starts and how many bytes it takes
+	mt        byte  // major type
+	within    []int // indexes (into the list) of the byte-string heads this head lies inside of
+}
+
+// c12Heads walks a well-formed definite-length encoding and lists its array, map and byte-string heads; the content
+// of a byte string that is itself exactly one well-formed item (bstr-wrapped values, COSE payloads and protected
+// headers) is walked too.
+func c12Heads(b []byte) []cborHeadPos {
+	var out []cborHeadPos
+	var walk func(off int, within []int) int
+	walk = func(off int, within []int) int {
+		if off >= len(b) {
+			return -1
+		}
+		mt, ai := b[off]>>5, b[off]&0x1f
+		hl, arg := 1, uint64(ai)
+		switch {
+		case ai < 24:
+		case ai <= 27:
+			w := 1 << (ai - 24)
+			if off+1+w > len(b) {
+				return -1
+			}
+			arg = 0
+			for _, c := range b[off+1 : off+1+w] {
+				arg = arg<<8 | uint64(c)
+			}
+			hl = 1 + w
+		default:
+			return -1
+		}
+		switch mt {
+		case 0, 1, 7:
+			return off + hl
+		case 2, 3:
+			end := off + hl + int(arg)
+			if arg > uint64(len(b)) || end > len(b) {
+				return -1
+			}
+			if mt == 2 {
+				idx := len(out)
+				out = append(out, cborHeadPos{off, hl, mt, append([]int{}, within...)})
+				if arg > 0 {
+					// wrapped item? walk a copy of the list so that a failed attempt leaves nothing behind
+					save := len(out)
+					sub := b[:end]
+					old := b
+					b = sub
+					if e := walk(off+hl, append(append([]int{}, within...), idx)); e != end {
+						out = out[:save]
+					}
+					b = old
+				}
+			}
+			return end
+		case 4, 5:
+			out = append(out, cborHeadPos{off, hl, mt, append([]int{}, within...)})
+			n := int(arg)
+			if mt == 5 {
+				n *= 2
+			}
+			p := off + hl
+			for i := 0; i < n; i++ {
+				if p = walk(p, within); p < 0 {
+					return -1
+				}
+			}
+			return p
+		default: // tag
+			return walk(off+hl, within)
+		}
+	}
+	if walk(0, nil) < 0 {
+		return nil
+	}
+	return out
+}
+
+// c12Inflations returns variants of a valid encoding in which one array or map head claims 99 999 entries, with and
+// without every byte string around it claiming 16 MiB, and variants in which only a byte-string head is inflated.
+func c12Inflations(b []byte, max int) [][]byte {
+	heads := c12Heads(b)
+	var out [][]byte
+	build := func(repl map[int][]byte) []byte {
+		var v []byte
+		p := 0
+		for i, h := range heads {
+			r, ok := repl[i]
+			if !ok {
+				continue
+			}
+			v = append(v, b[p:h.off]...)
+			v = append(v, r...)
+			p = h.off + h.hlen
+		}
+		return append(v, b[p:]...)
+	}
+	bigStr := []byte{0x5a, 0x00, 0xff, 0xff, 0xff}
+	for i, h := range heads {
+		if len(out) >= max {
+			break
+		}
+		switch h.mt {
+		case 4, 5:
+			big := []byte{0x9a, 0x00, 0x01, 0x86, 0x9f}
+			if h.mt == 5 {
+				big = []byte{0xba, 0x00, 0x00, 0xc3, 0x4f}
+			}
+			out = append(out, build(map[int][]byte{i: big}))
+			if len(h.within) > 0 {
+				repl := map[int][]byte{i: big}
+				for _, w := range h.within {
+					repl[w] = bigStr
+				}
+				out = append(out, build(repl))
+			}
+		case 2:
+			out = append(out, build(map[int][]byte{i: bigStr}), build(map[int][]byte{i: {0x5b, 0x7f, 0xff, 0xff, 0xff, 0xff, 0xff, 0xff, 0xff}}),
+				build(map[int][]byte{i: {0x5b, 0x80, 0, 0, 0, 0, 0, 0, 0}}), build(map[int][]byte{i: {0x5b, 0xff, 0xff, 0xff, 0xff, 0xff, 0xff, 0xff, 0xff}}))
+		}
+	}
+	return out
+}
+
+func c12TypedInflated(x *runCtx) {
+	r := gen.Rand(x.seed + 2100)
+	f := &filler{r: r}
+	per, max := 3, 24
+	if x.thorough() {
+		per, max = 40, 200
+	}
+	for _, wt := range wireTypes {
+		if wt.Name == "any" || wt.Name == "RawBytes" {
+			continue
+		}
+		for i := 0; i < per; i++ {
+			v := wt.Mk()
+			f.fill(reflect.ValueOf(v).Elem(), 0)
+			b, err := cbor.Marshal(v)
+			if err != nil {
+				continue
+			}
+			for _, inf := range c12Inflations(b, max) {
+				c12TypedInput(x, wt, inf, "inflated-in-place", true)
+			}
+		}
+	}
 }
